@@ -8,13 +8,18 @@ from . import ast
 from . import parser
 
 
+# Stands for NULL while parsing: the parser drops None from lists of
+# values, and with it a NULL literal inside a list literal.
+NULL = object()
+
+
 class BQLSemantics:
 
     def set_context(self, ctx):
         self._ctx = ctx
 
     def null(self, value):
-        return None
+        return NULL
 
     def _invalid(self, rule, value):
         # A literal matching the grammar but denoting no value is a syntax
@@ -55,7 +60,7 @@ class BQLSemantics:
         return ast.Asterisk()
 
     def list(self, value):
-        return list(value)
+        return [None if item is NULL else item for item in value]
 
     def ordering(self, value):
         return ast.Ordering[value or 'ASC']
@@ -63,7 +68,7 @@ class BQLSemantics:
     def _default(self, value, typename=None):
         if typename is not None:
             func = getattr(ast, typename)
-            return func(**{name.rstrip('_'): value for name, value in value.items()})
+            return func(**{name.rstrip('_'): None if value is NULL else value for name, value in value.items()})
         return value
 
 
